@@ -55,12 +55,16 @@ CALL_PROBES = [
     (19, False, "reserve, capacity, max_size, allocator constructor"),
     (20, False, "block_begin / block_end"),
     (21, False, "std::fill over the iterators"),
+    (22, False, "std::reverse/rotate/iter_swap/copy/copy_backward/count/find/equal over the iterators"),
 ]
 # driver builds: name -> (compiler, extra flags, ASan?)
 FLAVOURS = {"asan": (None, [], True),
             "o2ndebug": (None, ["-O2", "-DNDEBUG"], False),
             "clang": ("clang++", [], True),
-            "o0": (None, ["-O0"], False)}
+            "o0": (None, ["-O0"], False),
+            # XTL_NO_EXCEPTIONS: at(i >= size()) and view.resize(other size) abort instead of throwing; the scripts for this
+            # build stay inside the range (everything else must behave as in the throwing build)
+            "noexc": (None, ["-DXTL_NO_EXCEPTIONS"], True)}
 MAX_DRIVER_RESTARTS = 40          # per script; a tree that crashes more often has been reported often enough
 MAX_REPORTED = 12                 # distinct violations reported with a replay
 
@@ -187,7 +191,7 @@ class Gen:
                     return self.ev("MaxSize", k)
                 continue
             if c < 0.33 and not own:
-                return self.ev("ResizeView", k, n=r.choice([n, n, n + 1, 0, max(n - 1, 0)]))
+                return self.ev("ResizeView", k, n=n if self.caps.get("noexc") else r.choice([n, n, n + 1, 0, max(n - 1, 0)]))
             if c < 0.42:
                 return self.ev(r.choice(["SetAll", "ResetAll", "FlipAll", "FlipAll", "Not"]), k)
             if c < 0.50 and n > 0:
@@ -221,15 +225,24 @@ class Gen:
             if c < 0.83:
                 i = r.choice([0, max(n - 1, 0), n, n + 1, ((n + self.W - 1) // self.W) * self.W - 1 if n else 0,
                               ((n + self.W - 1) // self.W) * self.W, n + 3 * self.W, r.randrange(0, n + 2)])
+                if self.caps.get("noexc"):
+                    if n == 0:
+                        continue
+                    i = min(max(i, 0), n - 1)
                 return self.ev("At", k, c=r.choice(["c", "m"]), i=max(i, 0))
             if c < 0.90 and n > 0:
                 path = r.choice(["cindex", "index", "at", "cat", "front", "cfront", "back", "cback", "iter", "citer", "riter", "criter", "neg",
                                  "data", "cdata", "blockit"])
                 i = 0 if "front" in path else n - 1 if "back" in path else r.choice([0, n - 1, r.randrange(n)])
                 return self.ev("Read", k, path=path, i=i)
-            if c < 0.93:
+            if c < 0.915:
                 i, j = sorted([r.choice([0, n, r.randrange(n + 1)]), r.choice([0, n, r.randrange(n + 1)])])
                 return self.ev("Fill", k, i=i, j=j, v=r.randrange(2))
+            if c < 0.95:
+                ev = self.algo(k, n, self.size[o])
+                if ev is None:
+                    continue
+                return ev
             if n > 0:
                 path = r.choice(["index", "at", "front", "back", "iter", "riter"])
                 i = 0 if path == "front" else n - 1 if path == "back" else r.choice([0, n - 1, r.randrange(n)])
@@ -238,6 +251,30 @@ class Gen:
                 j = r.randrange(n) if wk == "aref" else 0
                 return self.ev("RefWrite", k, path=path, i=i, wk=wk, v=v, j=j)
         return self.ev("FlipAll", k)
+
+    def algo(self, k, n, no):
+        """A standard algorithm over the bit iterators; positions biased to block boundaries."""
+        r, W = self.r, self.W
+        pos = lambda hi: r.choice([0, hi, r.randrange(hi + 1), min(hi, W - 1), min(hi, W), min(hi, W + 1), max(hi - 1, 0)])
+        alg = r.choice(["reverse", "rotate", "iterswap", "copyfrom", "copybwd", "count", "find", "equal", "reverse", "rotate"])
+        if alg == "iterswap":
+            if n == 0:
+                return None
+            return self.ev("Algo", k, alg=alg, i=min(pos(n), n - 1), m=0, j=min(pos(n), n - 1))
+        if alg == "rotate":
+            i, m, j = sorted([pos(n), pos(n), pos(n)])
+            return self.ev("Algo", k, alg=alg, i=i, m=m, j=j)
+        if alg == "copyfrom":
+            i, j = sorted([pos(no), pos(no)])
+            if j - i > n:
+                j = i + n
+            return self.ev("Algo", k, alg=alg, i=i, m=r.choice([0, n - (j - i), r.randrange(n - (j - i) + 1)]), j=j)
+        if alg == "copybwd":
+            i, j = sorted([pos(n), pos(n)])
+            return self.ev("Algo", k, alg=alg, i=i, m=r.choice([0, 1, n - j, r.randrange(n - j + 1)]) if n - j > 0 else 0, j=j)
+        hi = min(n, no) if alg == "equal" else n
+        i, j = sorted([pos(hi), pos(hi)])
+        return self.ev("Algo", k, alg=alg, i=i, m=0, j=j)
 
     def next(self):
         """One event; after a move with an observed source the source's size is unknown to the generator: it is
@@ -357,7 +394,7 @@ def setup_events(st, W, rnd):
 stratified_sample = drvrun.stratified_sample
 
 
-OBSERVERS = {"At", "Read", "Not", "And", "Or", "Xor", "Shl", "Shr", "ResizeView", "Reserve", "MaxSize"}
+OBSERVERS = {"At", "Read", "Not", "And", "Or", "Xor", "Shl", "Shr", "ResizeView", "Reserve", "MaxSize"}       # (Algo: some kinds write)
 
 
 def enumerate_edges(ctx, cfg):
@@ -600,16 +637,22 @@ def finish(ctx, caps, q, rule_extra=""):
     return core.finish(
         ctx, "model_checking",
         rule="TLC: L1 exhaustive for widths {2,3}, <=4 bits (quick) or <=5 bits (thorough), two objects; L2=>L1 refinement at the same bounds%s; "
+             "the factored relation NextSplit of BitsetImpl.tla covers every pair of contents of two objects (owning or view) x every call: W=2/5 bits "
+             "(quick), W=3/7 bits all pairs and W=4/9 bits with representative second operands (thorough); "
              "L1 transitions at W=8 (sizes 0..%d, one target object + representative operands, owning and view) enumerated by TLC and %s replayed on the "
-             "real objects; TLC simulation walks; the upstream test file's call sequences; seeded random scripts for uint8/16/32/64 with boundary "
-             "sizes/shifts on %d driver builds. A case is one call with its full observable projection compared by TLC.%s" % (
-                 "" if q else " plus one target object up to 7 bits at W=3",
-                 9 if q else 10, "a sample (25 000; thorough 300 000) stratified over actions and argument classes, a different one for every VERIF_SEED,", 2 if q else 4, rule_extra),
+             "real objects; TLC simulation walks at 12 and at 20 bits (three blocks); the upstream test file's call sequences; seeded random scripts for "
+             "uint8/16/32/64 with boundary sizes/shifts on %d driver builds (one of them with XTL_NO_EXCEPTIONS); std::reverse/rotate/iter_swap/copy/"
+             "copy_backward/count/find/equal over the bit iterators are actions of L1; every step also compares end()-begin(), rend()-rbegin(), "
+             "std::count over the iterators, == with exchanged operands and element-wise std::equal. A case is one call with its full observable projection compared by TLC.%s" % (
+                 "" if q else " (unfactored relation)",
+                 9 if q else 10, "a sample (25 000; thorough 300 000) stratified over actions and argument classes, a different one for every VERIF_SEED,", 3 if q else 5, rule_extra),
         assumptions=["the harness projection (operator[], iterators, data(), block iterators, count/any/all/none) is read through the public API",
                      "moved-from bitsets are %s" % ("observed like any other object (any valid value is accepted)" if caps.get("movedfrom") else
                                                     "NOT observed on this tree (they are invalid, proposed_fixes/C03-03): the source of a move is re-created at once"),
-                     "capacity() is only required to be >= the reserved size and >= size(); allocator behaviour, XTL_NO_EXCEPTIONS builds "
-                     "(at() cannot throw there) and copies between bitsets of different block types are not modelled",
+                     "capacity() is only required to be >= the reserved size and >= size(); allocator behaviour and copies / comparisons between "
+                     "bitsets of different block types are not modelled; in the XTL_NO_EXCEPTIONS build the scripts stay in range (at(i >= size()) "
+                     "terminating instead of returning is probed and reported as advisory only)",
+                     "the std-algorithm actions (Algo) have no counterpart in the L2 specs (they are compositions of proxy reads and writes)",
                      "aliasing views (two views over the same caller memory, as a view copy or move creates) are not modelled"],
         exhaustive=False)
 
@@ -650,7 +693,7 @@ def run(ctx):
 
     # ---- 0. compile-time stage and driver builds (in the background while TLC runs)
     nsig = signature_stage(ctx)
-    flavours = ["asan"] if ONLY_RND else ["asan", "o2ndebug"] + ([] if q else ["clang", "o0"])
+    flavours = ["asan", "noexc"] if ONLY_RND else ["asan", "o2ndebug", "noexc"] + ([] if q else ["clang", "o0"])
     builds, build_err = {}, {}
 
     def do_builds():
@@ -703,7 +746,14 @@ def run(ctx):
 
     # ---- 2. L2 => L1 refinement
     pref = "BitsetImpl_mc" if caps["movedfrom"] else "BitsetImpl_mcdm"
-    l2 = [pref + ".cfg"] if q else [pref + "_thorough.cfg", pref + "_thorough2.cfg", "BitsetImpl_mc_deep3.cfg"]
+    # the *_split* configurations use the factored next-state relation of BitsetImpl.tla (NextSplit): every pair of contents
+    # of two objects (owning or view) x every call, at a cost linear in the number of pairs
+    if q:
+        l2 = [pref + ".cfg"] + (["BitsetImpl_mc_split25.cfg"] if caps["movedfrom"] else [])
+    elif caps["movedfrom"]:
+        l2 = [pref + "_thorough.cfg", pref + "_thorough2.cfg", "BitsetImpl_mc_split37.cfg", "BitsetImpl_mc_split49.cfg"]
+    else:
+        l2 = [pref + "_thorough.cfg", pref + "_thorough2.cfg", "BitsetImpl_mc_deep3.cfg"]
     for cfg2 in ([] if FAST else l2):
         r2 = core.tlc_model_check(ctx, "BitsetImpl", cfg2, "L2 (block-level transcription) refines L1; unused bits zero", timeout=2400)
         if r2["violated"]:
@@ -746,6 +796,15 @@ def run(ctx):
     lines, nwalks = sim_scripts(ctx, simdir, 8, caps)
     ctx.notes["s2c_simulation_walks"] = nwalks
     scripts.append(("sim", 8, lines, "asan"))
+    # ---- 3b'. walks at 20 bits (three blocks of width 8; BFS does not finish there)
+    simdir20 = ctx.sub("sim20")
+    nsim20 = 10 if q else 250
+    if not ONLY_RND:
+        core.tlc(ctx, "BitsetMC", "Bitset_sim20.cfg", name="s2c-simulate-20bits",
+                 simulate="file=%s/t,num=%d" % (simdir20, nsim20), extra=["-depth", "40", "-seed", str(ctx.seed + 7)], workers=min(4, core.NCPU))
+    lines, nwalks20 = sim_scripts(ctx, simdir20, 8, caps)
+    ctx.notes["s2c_simulation_walks_20bits"] = nwalks20
+    scripts.append(("sim20", 8, lines, "asan"))
 
     # ---- 3c. the upstream tests' own call sequences through the logging harness
     scripts.append(("upstream", 64, upstream_script(), "asan"))
@@ -758,7 +817,7 @@ def run(ctx):
                 nexec //= 2
             if fl != "asan":
                 nexec = nexec // 3 if q else nexec // 4
-            lines = random_script(ctx.seed, W, nexec, nops, caps, build=fl)
+            lines = random_script(ctx.seed, W, nexec, nops, dict(caps, noexc=(fl == "noexc")), build=fl)
             for i, ch in enumerate(chunk_by_reset(lines, 1 if (q or fl != "asan") else 4)):
                 scripts.append(("rnd-%s-w%d-%d" % (fl, W, i), W, ch, fl))
 
@@ -766,6 +825,21 @@ def run(ctx):
     for fnd in findings:
         if "probe" in fnd:
             scripts.append(("probe-" + fnd["id"], fnd["probe"]["W"], fnd["probe"]["script"], "asan"))
+
+    # ---- XTL_NO_EXCEPTIONS: at(i >= size()) cannot throw; the documented replacement is to terminate.  Advisory: a build
+    # in which the call returns normally (an unchecked access) is reported as drift, not as a violation
+    if "noexc" in builds:
+        for W in (8, 64):
+            pl = [{"op": "Reset", "k": 1, "a": {"W": W, "build": "noexc"}}, {"op": "CtorNV", "k": 1, "a": {"n": W + 3, "v": 1}},
+                  {"op": "At", "k": 1, "a": {"c": "c", "i": W + 3}}]
+            tp = os.path.join(ctx.sub("probe"), "noexc-at-w%d.ndjson" % W)
+            run_script(ctx, builds["noexc"], W, pl, tp, "probe-noexc")
+            evs = core.read_ndjson(tp)
+            ended = evs[-1].get("op") if evs else None
+            ctx.notes.setdefault("noexc_at_out_of_range_ends_with", {})[str(W)] = ended
+            if ended != "Crash":
+                ctx.drift.append("ADVISORY C03: built with XTL_NO_EXCEPTIONS, at(size()) on a %d-bit-block bitset returned normally instead of terminating (%s)" % (W, json.dumps(evs[-1].get("res")) if evs else "no event"))
+        ctx.notes.pop("driver_restarts", None)
 
     # ---- run the harness
     scripts = [x for x in scripts if x[2]]
